@@ -4,10 +4,11 @@
    ([isos]), every program (user-lock operations, predicate writes, all wait forms, notify_one/notify_all,
    request_stop, yields, stale wake-up tokens), every schedule and deadline oracle.  The user lock is any
    Lockable: the model only uses lock (blocks while owned) and unlock. *)
-From Coq Require Import List NArith Bool.
+From Coq Require Import List NArith Bool Arith.
 From Pika Require Import Base.Conc Base.Agent Model.CondVar
   Proofs.CondVarInvA Proofs.CondVarInvB Proofs.CondVarInvC Proofs.CondVarProofs Proofs.CondVarStop
   Proofs.CondVarTimedStop.
+From Pika Require Import Model.CondVarAbort Proofs.CondVarAbortProofs.
 Import ListNotations.
 
 (* releasing the user lock and becoming a waiter is atomic with respect to notifiers: whenever another
@@ -285,3 +286,66 @@ Proof.
   cbv zeta. split; [|vm_compute; repeat split].
   intros t. destruct t as [|[|t]]; vm_compute; reflexivity.
 Qed.
+
+(* ======== round w11c: abort_all — a detail condition variable destroyed (or aborted) with waiters queued ========
+   Model/CondVarAbort.v: the aborter [a] (abort_all(lock): swap the queue out under I, per entry: pop under I, RELEASE I,
+   ctx.abort(), re-lock I; repeat while queue_ is not empty) against any number of waiters performing any number of detail waits
+   (pika tasks or plain OS threads, spurious returns of suspend), every schedule.
+   Reachability, as read: pika::condition_variable / condition_variable_any keep the detail object in a reference-counted
+   condition_variable_data and every waiter holds a reference for the whole wait (`auto data = data_;`), so their destructor
+   (= default) never runs ~detail::condition_variable with a non-empty queue; nothing in the library calls abort_all(lock).  The
+   path is reached only (a) by destroying a pika::mutex / counting_semaphore / latch / event / barrier ... (they embed a detail
+   condition variable by value) while tasks are blocked in it — a precondition violation of those classes — or (b) by driving
+   pika::detail::condition_variable directly, which is what harness/c07_abort.cpp does.  Kept as model-level theorems + that harness. *)
+
+(* every entry ever queued is accounted for exactly once at every moment: aborted (one abort() call), erased by its own waiter,
+   still in queue_, in the aborter's local list, or the one being aborted right now *)
+Theorem C07_abort_all_accounting : forall a isos waits sched,
+  ABinv a (fst (ab_run a isos waits sched)) (snd (ab_run a isos waits sched)).
+Proof. exact ab_inv. Qed.
+Print Assumptions C07_abort_all_accounting.
+
+(* abort_all has returned: its local list is empty; every entry ever queued was aborted — exactly one abort() per entry, never
+   more abort() calls than entries (next theorem) — or was erased by its own waiter, or sits in queue_ (pushed after abort_all's
+   last look at the queue; with the destructor's precondition "nobody starts a new wait" queue_ is empty and the sum is exact) *)
+Theorem C07_abort_all_wakes_all : forall a isos waits sched,
+  let cf := ab_run a isos waits sched in
+  apc (snd cf a) = ADone ->
+  apend (fst cf) = [] /\
+  forall t, pushes (fst cf) t = aborts (fst cf) t + selfrem (fst cf) t + count_occ Nat.eq_dec (aq (fst cf)) t.
+Proof. exact abort_all_wakes_all. Qed.
+Print Assumptions C07_abort_all_wakes_all.
+
+Theorem C07_abort_never_more_than_queued : forall a isos waits sched t,
+  aborts (fst (ab_run a isos waits sched)) t <= pushes (fst (ab_run a isos waits sched)) t.
+Proof. exact aborts_le_pushes. Qed.
+Print Assumptions C07_abort_never_more_than_queued.
+
+(* the abort() call: the target is not blocked afterwards and its agent carries the abort reason *)
+Theorem C07_abort_resumes_with_reason : forall a isos spur g l w,
+  apc l = AAbort w -> apc (snd (ab_tstep a isos spur a g l)) = ARelock ->
+  let g' := fst (ab_tstep a isos spur a g l) in
+  blocked (aag g' w) = false /\ areason g' w = true /\ aborts g' w = S (aborts g w).
+Proof. exact abort_resumes_with_reason. Qed.
+Print Assumptions C07_abort_resumes_with_reason.
+
+(* ... and the waiter's suspension then ends with the yield_aborted exception; for a pika task the reason is consumed, for a plain
+   OS thread it stays (default_agent::aborted_ is never reset: every later suspension of that thread throws as well) *)
+Theorem C07_aborted_wait_throws : forall a isos spur t g l,
+  Nat.eqb t a = false -> apc l = QSusp -> areason g t = true -> apc (snd (ab_tstep a isos spur t g l)) = QRelock ->
+  thr (snd (ab_tstep a isos spur t g l)) = true /\
+  thrown (fst (ab_tstep a isos spur t g l)) t = S (thrown g t) /\
+  areason (fst (ab_tstep a isos spur t g l)) t = isos t.
+Proof. exact aborted_wait_throws. Qed.
+Print Assumptions C07_aborted_wait_throws.
+
+(* three OS-thread waiters (1, 2, 3) queue up and block; thread 0 calls abort_all; everybody runs to the end: three abort() calls,
+   three exceptions, nobody blocked, queue empty *)
+Example C07_example_abort_all :
+  let rr := fun k => flat_map (fun _ => [(1, false); (2, false); (3, false)]) (seq 0 k) in
+  let cf := ab_run 0 (fun _ => true) (fun t => if Nat.leb 1 t && Nat.leb t 3 then 1 else 0)
+              (rr 6 ++ repeat (0, false) 14 ++ rr 8) in
+  map (aborts (fst cf)) [1; 2; 3] = [1; 1; 1] /\ map (thrown (fst cf)) [1; 2; 3] = [1; 1; 1] /\
+  map (fun t => blocked (aag (fst cf) t)) [1; 2; 3] = [false; false; false] /\
+  map (fun t => apc (snd cf t)) [0; 1; 2; 3] = [ADone; QDone; QDone; QDone] /\ aq (fst cf) = [] /\ ai (fst cf) = None.
+Proof. vm_compute. repeat split; reflexivity. Qed.
